@@ -34,3 +34,18 @@ package mpckks
 //@   requires len(opOut.Value) == 2
 //@   ensures implies(isnil(err), val(opOut.Value[0]) == old(val(c0Agg.Value)) && val(opOut.Value[1]) == old(val(crs.Value)))
 //@   ensures implies(isnil(err), len(opOut.Value[0].Coeffs) == len(c0Agg.Value.Coeffs) && len(opOut.Value[1].Coeffs) == len(crs.Value.Coeffs))
+
+// ---- arguments are not retained (property C09): no reference to memory of the caller's input is stored
+// ---- into the receiver, the output or another argument (a pointer assignment where a copy was meant)
+//@ noescape MaskedLinearTransformationProtocol.Transform ct
+//@   property C09
+
+//@ noescape MaskedLinearTransformationProtocol.GenShare ct
+//@   property C09
+
+//@ noescape EncToShareProtocol.GenShare ct
+//@   property C09
+
+//@ noescape ShareToEncProtocol.GetEncryption c0Agg
+//@   property C09
+
